@@ -98,6 +98,12 @@ CATALOGUE = [
     ("result-type", "dval", "{ if ({B_d}) return {D_d}; if (!{B_d}) return {I_d}; return {D}; }"),
     ("result-type", "ival", "{ switch ({I_d}) { case 1: return 0; case 2: return {U_d}; default: return {I_d}; } }"),
     ("result-type", "sval", "{ if ({B_d}) return {S}; if (!{B_d}) return {I_d}; return {S_d}; }"),
+    # ... nor does an untyped literal in the middle or at the end
+    ("result-type", "ival", "{ if ({B_d}) return {U_d}; if (!{B_d}) return 1; return 0; }"),
+    ("result-type", "uval", "{ if ({B_d}) return {I_d}; if (!{B_d}) return 1; return 0; }"),
+    ("result-type", "slist", "{ if ({B_d}) return [{I_d}]; if (!{B_d}) return []; return [{S_d}]; }"),
+    ("result-type", "peer", "{ if ({B_d}) return other1; if (!{B_d}) return null; return a; }"),
+    ("result-type", "dval", "{ if ({B_d}) return {I_d}; if (!{B_d}) return 0; return 1; }"),
 ]
 
 # well-typed controls built from the same vocabulary (must be accepted)
